@@ -9,22 +9,27 @@
    state hook = Tick::cycle_with_initial, a slice = the synchronous product of its hooks) the
    four clauses are the four theorems below, each for ALL scripts of arrivals and decisions.
    Second half of the file: the same clauses over engine Sim's model of the real simulator
-   hooks and run_hooks (all batch hook kinds, the singleton snapshot hook, run_hooks itself).
-   `_partial` (still missing, provable): per-key order of keyed TotalOrder batches over a whole
-   trajectory (engine Sim proves it per tick: keyed_total_per_key), monotonicity for the
-   KeyedSingletonHook / PassthroughSingletonHook snapshot variants. *)
+   hooks and run_hooks, for EVERY hook kind SimBuilder::batch creates:
+     batches    TotalOrder: lists equal (C31_sim_batches_partition); keyed TotalOrder: per key
+                lists equal (C31_sim_keyed_batches_order); NoOrder / keyed NoOrder (no order to
+                keep): each element in exactly one batch (C31_sim_batches_conserved, all kinds);
+     snapshots  SingletonHook and PassthroughSingletonHook (C31_sim_snapshots_monotone),
+                KeyedSingletonHook per key (C31_sim_keyed_snapshots_monotone);
+     same point run_hooks gives every hook one decide-and-release step per tick
+                (C31_sim_hooks_same_tick, C31_sim_slice_columns);
+     state      C31_state_carries (Tick::cycle_with_initial). *)
 From Coq Require Import List NArith Bool Arith Sorted.
-From HV Require Import Sim.Model Sim.PHooks HydroB.ModelSlice HydroB.PSlice HydroB.SimSlice HydroB.PSimSlice.
+From HV Require Import Sim.Model Sim.PHooks HydroB.ModelSlice HydroB.PSlice HydroB.SimSlice HydroB.PSimSlice HydroB.PSimSnap.
 Import ListNotations.
 Open Scope nat_scope.
 
 (* batches of successive slices ++ what is still queued = the input, as lists (so: every
    element in exactly one batch or still queued, order kept); any arrivals, any decisions *)
-Theorem C31_batches_partition_partial : forall (A : Type) script (q bs qf : list A) bss,
+Theorem C31_batches_partition : forall (A : Type) script (q bs qf : list A) bss,
   run_stream A q script = (bss, qf) ->
   concat bss ++ qf = q ++ concat (arrivals_of A script).
 Proof. intros A script q bs qf bss. exact (run_stream_partition A script q bss qf). Qed.
-Print Assumptions C31_batches_partition_partial.
+Print Assumptions C31_batches_partition.
 
 (* production code generation (batch = identity): slice t sees exactly tick t's arrivals *)
 Theorem C31_production_batches : forall (A : Type) (arrivals : list (list A)),
@@ -33,22 +38,22 @@ Proof. exact run_stream_prod. Qed.
 Print Assumptions C31_production_batches.
 
 (* released snapshot versions never decrease *)
-Theorem C31_snapshots_monotone_partial : forall script vs,
+Theorem C31_model_snapshots_monotone : forall script vs,
   StronglySorted lt (snap_arrivals script) ->
   run_snap (mkSnap [] None) script = Some vs -> sorted_le vs = true.
 Proof. exact snapshots_monotone. Qed.
-Print Assumptions C31_snapshots_monotone_partial.
+Print Assumptions C31_model_snapshots_monotone.
 
 (* all hooks of one slice: one release per hook per slice, the first hook's column is that
    hook's own run, the remaining columns are the slice run of the remaining hooks *)
-Theorem C31_hooks_same_slice_partial : forall (A : Type) script (q : list A) qs,
+Theorem C31_model_hooks_same_slice : forall (A : Type) script (q : list A) qs,
   Forall (fun tick => tick <> []) script ->
   map (fun rec => hd [] rec) (run_slices A (q :: qs) script)
     = fst (run_stream A q (map (fun tick => hd (dflt A) tick) script)) /\
   map (fun rec => tl rec) (run_slices A (q :: qs) script)
     = run_slices A qs (map (fun tick => tl tick) script).
 Proof. exact slices_head_tail. Qed.
-Print Assumptions C31_hooks_same_slice_partial.
+Print Assumptions C31_model_hooks_same_slice.
 
 (* a state hook: the first slice reads the initial value, slice i+1 reads what slice i wrote *)
 Theorem C31_state_carries : forall (S I O : Type) (body : S -> I -> S * O) ins s,
@@ -74,20 +79,45 @@ Print Assumptions C31_sim_batches_partition.
 
 (* every batch hook kind (TotalOrder, NoOrder, keyed TotalOrder, keyed NoOrder): each element is
    in exactly one batch or still queued (multiset form) *)
-Theorem C31_sim_batches_conserved_partial : forall tr h h',
+Theorem C31_sim_batches_conserved : forall tr h h',
   Traj h tr h' -> batch_kind h -> Forall (fun ao => arr_ok h (fst ao)) tr ->
   Permutation.Permutation (outs_of tr ++ content h') (content h ++ arrs_of tr).
 Proof. exact traj_conserves. Qed.
-Print Assumptions C31_sim_batches_conserved_partial.
+Print Assumptions C31_sim_batches_conserved.
 
 (* snapshot hook (SingletonHook): released versions never decrease *)
-Theorem C31_sim_snapshots_monotone_partial : forall tr q last h',
+Theorem C31_sim_singleton_snapshots_monotone : forall tr q last h',
   Traj (HSingle q None last) tr h' ->
   StronglySorted N.lt (olist last ++ q ++ vals (arrs_of tr)) ->
   StronglySorted N.le (snaps_of tr) /\
   Forall (fun v => forall l, last = Some l -> N.le l v) (snaps_of tr).
 Proof. exact traj_single_mono. Qed.
-Print Assumptions C31_sim_snapshots_monotone_partial.
+Print Assumptions C31_sim_singleton_snapshots_monotone.
+
+(* keyed TotalOrder batch hook: for every key, released values over all ticks ++ the key's queue
+   = the key's initial queue ++ its arrivals, as lists *)
+Theorem C31_sim_keyed_batches_order : forall tr m h',
+  Traj (HKeyedT m None) tr h' -> NoDup (map fst m) ->
+  exists m', h' = HKeyedT m' None /\ NoDup (map fst m') /\
+    forall k, proj k (outs_of tr) ++ qof k m' = qof k m ++ proj k (arrs_of tr).
+Proof. exact traj_keyed_total_order. Qed.
+Print Assumptions C31_sim_keyed_batches_order.
+
+(* SingletonHook and PassthroughSingletonHook (with its re-release of the last value) *)
+Theorem C31_sim_snapshots_monotone : forall tr h q last h',
+  snap_hook h q last -> Traj h tr h' ->
+  StronglySorted N.lt (olist last ++ q ++ vals (arrs_of tr)) ->
+  StronglySorted N.le (vals (outs_of tr)).
+Proof. exact traj_snapshot_mono. Qed.
+Print Assumptions C31_sim_snapshots_monotone.
+
+(* KeyedSingletonHook: per key *)
+Theorem C31_sim_keyed_snapshots_monotone : forall tr m last h' k,
+  Traj (HKSingle m None last) tr h' -> NoDup (map fst m) ->
+  StronglySorted N.lt (olist (lookup N.eqb k last) ++ qof k m ++ proj k (arrs_of tr)) ->
+  StronglySorted N.le (proj k (outs_of tr)).
+Proof. exact traj_keyed_snapshot_mono. Qed.
+Print Assumptions C31_sim_keyed_snapshots_monotone.
 
 (* all hooks of one slice are taken at the same point: in every tick of a slice run the real
    run_hooks procedure gives every hook exactly one decide-and-release step, and a hook's
